@@ -102,16 +102,21 @@ def order_free(muts):
     """the removal of a stale partition directory (`rmtree(stale_p<j>)`) touches its objects in directory-scan order, which
     changes once some entries are gone: a leftover from a killed attempt and the freshly renamed-aside directory are emptied
     in different orders within one command, while the model has one order parameter per partition (the theorems hold for
-    every order).  Runs of consecutive mutations on stale objects are therefore compared as multisets."""
-    out, run = [], []
+    every order).  Runs of consecutive mutations on stale objects are therefore compared by their net effect per object."""
+    out, run = [], {}
+
+    def flush():
+        # per stale object only the value the run leaves it with (a multi-file object passes through `torn`; a leftover that
+        # is already torn needs one event less)
+        out.extend(sorted((["set", o, v] for o, v in run.items()), key=repr))
+        run.clear()
     for m in muts:
         if m[0] == "set" and str(m[1]).split(":")[0] in ("smeta", "sent"):
-            run.append(m)
+            run[m[1]] = m[2]
             continue
-        out.extend(sorted(run, key=repr))
-        run = []
-        out.append(m)
-    out.extend(sorted(run, key=repr))
+        flush()
+        out.append(list(m))
+    flush()
     return out
 
 
